@@ -1,5 +1,5 @@
 """C08 — spans and span reductions (exetera/core/operations.py, session.py, fields.py) vs coq/Model/Spans.v."""
-import itertools, io
+import itertools, io, struct
 from harness import hot
 
 PROP, NUM = 'C08', 8
@@ -25,11 +25,27 @@ RULE = ('exhaustive small scope: get_spans through Field.get_spans / Session.get
         'random run layouts around K, and min / max / first / last / index_of_min / index_of_max (kernel, Session, Field) '
         'with the extreme rows (and ties) at / next to K and 2K and spans that straddle, start or end at them; for small '
         'new literals K <= 2048 also explicit K+1 / 2K+2-row tables through _get_spans_for_multi_fields / check_if_sorted. '
+        'KEYS GIVEN BY THEIR STORED REPRESENTATION (value equality is not representation equality; the real code gets the '
+        'bit patterns, the model float_key(bits), theorems float_key_* / spans_float_column_correct / groupby_spans_correct): '
+        'float64 / float32 / timestamp columns over {+0.0, -0.0, 0.5} of length 0..5 through every one-column entry point; '
+        'pairs of columns of length 0..4 over the two zeros x two values in 8 dtype pairs (and 0..3 over three values) through '
+        'fields=(Field,Field) / (ndarray,ndarray); np.asarray-stacked tables of 1..3 columns of one or several numeric dtypes '
+        '(bool/int8/int32/int64/float32/float64, widened) and of S columns of several widths (re-padded; b"a" vs b"a\\0") '
+        'of length 0..5 / 0..4 / 0..3 through _get_spans_for_multi_fields and check_if_sorted_for_multi_fields; '
+        'DataFrame.groupby(by=...).count() on 14 key dtype sets (same dtype: stacked; different dtypes: ranked by np.unique) '
+        'of length 0..4 / 0..2; min / max / first / last / index_of_* and the *_filter kernels with ties between the two zeros; '
+        'random runs over infinities, +-max, +-smallest subnormal and sign-mixed runs of zeros through all of these. '
         'Non-trivial = the case reaches a planted feature (see features).')
 EXHAUSTIVE = {'quick': True, 'thorough': True}
 TRUSTED = ['numpy element-wise `!=`, `<`, `>` on int/float/bool/S arrays and numba\'s charseq comparisons are the exact '
            '(byte-wise unsigned, NUL-padded) comparisons of the model (exercised by this correspondence, not proved)',
-           'float columns are NaN-free multiples of 1/4 (order-embedded into Z by the harness)',
+           'float columns are NaN-free; kinds float64/float32/ts: multiples of 1/4 (order-embedded into Z by the harness); '
+           'kinds f64b/f32b/tsb: any non-NaN bit pattern, order-embedded by the Gallina function float_key (sign-magnitude '
+           'decoding, proved to identify exactly the two zeros and to order patterns as sign-magnitude numbers; that this is '
+           'the order / equality of IEEE-754 binary floats is the standard\'s encoding, not proved here)',
+           'np.asarray of key columns of different numeric dtypes / S widths keeps every value (only value-preserving '
+           'combinations are stacked by the harness); np.unique(return_inverse) is modelled by unique_inverse (theorem '
+           'unique_inverse_exact), numpy\'s own implementation is exercised, not verified',
            'apply_index_to_indexed_field (C09) maps the row indices returned by the indexed kernels to strings',
            'large cases: the harness expands a run-length encoding with numpy.repeat / numpy.tile (offsets by cumsum); '
            'Model/SpansRle.v `expand` is the meaning of that expansion (numpy.repeat itself is not verified)']
@@ -44,7 +60,8 @@ LEVEL_TEXT = ('Theorems in coq/Props/C08.v prove for all inputs that the models 
               'apply_spans_* model returns the per-span first/last/min/max/count/argmin/argmax; the models are tied to '
               'the real code by running both on the same generated cases.')
 LEVEL_NOTE = ('Trusted: Coq kernel, extraction, harness. numpy/numba element comparisons are modelled (byte-wise), not '
-              'verified. Floats are order-embedded integers.')
+              'verified. Floats are order-embedded integers (float_key on the stored bit pattern: equal values, e.g. +0.0 and '
+              '-0.0, get the same integer).')
 
 _np = _ops = _fields = _sess = None
 S = DS = DF = None
@@ -73,6 +90,47 @@ def warmup():
 NUMK = ['int32', 'int64', 'float64', 'float32', 'bool', 'int8', 'cat', 'ts']
 BIG = 2 ** 53
 
+# ---- keys given by their STORED representation (value equality is not representation equality) ----------------
+# kinds 'f64b' / 'f32b' / 'tsb': a float64 / float32 / timestamp column whose rows are the IEEE bit patterns (ints); the
+# real code gets exactly these bits, the model gets float_key(bits) (Model/SpansRepr.v): +0.0 / -0.0 share the key 0.
+FBITS = {'f64b': 64, 'f32b': 32, 'tsb': 64}
+
+
+def fbits(w, x):
+    return struct.unpack('<Q', struct.pack('<d', x))[0] if w == 64 else struct.unpack('<I', struct.pack('<f', x))[0]
+
+
+def fkey(w, bits):
+    """python mirror of Gallina float_key (used only to canonicalise VALUES the real code returns, and for features)."""
+    s = 1 << (w - 1)
+    return bits if bits < s else s - bits
+
+
+def _fb_small(w):
+    return [fbits(w, 0.0), fbits(w, -0.0), fbits(w, 0.5)]
+
+
+def _fb_two(w):
+    return [fbits(w, 0.0), fbits(w, -0.0)]
+
+
+def _fb_pool(w):
+    mx = 1.7976931348623157e308 if w == 64 else 3.4028234663852886e38
+    sub = 5e-324 if w == 64 else 1.401298464324817e-45
+    return [fbits(w, x) for x in (float('-inf'), -mx, -1.5, -sub, -0.0, 0.0, sub, 1.5, mx, float('inf'))]
+
+
+def _vrows(col):
+    """rows of a column as VALUES (what must compare equal compares equal): float bits -> keys, fixed -> NUL-stripped."""
+    k = col['k']
+    if k in FBITS:
+        return [fkey(FBITS[k], b) for b in col['rows']]
+    if k == 'fixed':
+        return [tuple(_strip(r)) for r in col['rows']]
+    if k == 'bool':
+        return [1 if r else 0 for r in col['rows']]
+    return [tuple(r) if isinstance(r, list) else r for r in col['rows']]
+
 
 def _num_value(kind, v):
     if kind == 'int64':
@@ -89,7 +147,8 @@ def _num_value(kind, v):
 def _np_dtype(kind):
     np = _np
     return {'int32': np.int32, 'int64': np.int64, 'float64': np.float64, 'float32': np.float32, 'bool': np.bool_,
-            'int8': np.int8, 'cat': np.int8, 'ts': np.float64}[kind]
+            'int8': np.int8, 'cat': np.int8, 'ts': np.float64, 'f64b': np.float64, 'f32b': np.float32,
+            'tsb': np.float64}[kind]
 
 
 def _array(col):
@@ -98,6 +157,9 @@ def _array(col):
     k = col['k']
     if k == 'fixed':
         return np.array([bytes(r) for r in col['rows']], dtype='S%d' % col['w'])
+    if k in FBITS:
+        w = FBITS[k]
+        return np.array(col['rows'], dtype=np.uint64 if w == 64 else np.uint32).view(np.float64 if w == 64 else np.float32)
     return np.array([_num_value(k, v) for v in col['rows']], dtype=_np_dtype(k))
 
 
@@ -108,8 +170,12 @@ def _offsets(rows):
     return off
 
 
+_FIELD_KIND = {'f64b': 'float64', 'f32b': 'float32', 'tsb': 'ts'}
+
+
 def _new_field(k, w, h5):
     F = _fields
+    k = _FIELD_KIND.get(k, k)
     if h5:
         _h5n[0] += 1
         name = 'f%d' % _h5n[0]
@@ -216,6 +282,12 @@ def _vals_out(a, kind):
         return [_exact(float(x) * 2) for x in a]
     if kind == 'float32':
         return [_exact(float(x) * 4) for x in a]
+    if kind in FBITS:
+        w = FBITS[kind]
+        a = np.ascontiguousarray(a)
+        if a.dtype.itemsize * 8 != w or a.dtype.kind != 'f':
+            raise AssertionError('dtype %s returned for a binary%d column' % (a.dtype, w))
+        return [fkey(w, int(b)) for b in a.view(np.uint64 if w == 64 else np.uint32)]
     return [int(x) for x in a]
 
 
@@ -289,6 +361,12 @@ def run(case):
     if op == 'sorted':
         cols = np.asarray([_array({'k': case['k'], 'w': case.get('w'), 'rows': c}) for c in case['cols']])
         return 1 if ops.check_if_sorted_for_multi_fields(cols) else 0
+    if op == 'multir':
+        return _spans_out(ops._get_spans_for_multi_fields(np.asarray([_array(c) for c in case['cols']])))
+    if op == 'sortedr':
+        return 1 if ops.check_if_sorted_for_multi_fields(np.asarray([_array(c) for c in case['cols']])) else 0
+    if op == 'gb':
+        return _run_groupby(case)
     if op == 'bs':
         dt = np.int32 if case['sdt'] == 'int32' else np.int64
         return _ints(ops._get_spans_for_2_fields_by_spans(np.array(case['s0'], dtype=dt), np.array(case['s1'], dtype=dt)))
@@ -307,6 +385,47 @@ def run(case):
             d, fl = getattr(ops, 'apply_spans_index_of_%s_filter' % fn)(spans, dest, flt)
         return [_ints(d), [1 if x else 0 for x in fl]]
     raise ValueError(op)
+
+
+_gbn = [0]
+
+
+def _col_dtype(col):
+    return '|S%d' % col['w'] if col['k'] == 'fixed' else _dtype_name(col['k'])
+
+
+def _run_groupby(case):
+    """DataFrame.groupby(by=[...]).count(): the group sizes are the differences of the spans of the key rows."""
+    _gbn[0] += 1
+    gname, oname = 'g%d' % _gbn[0], 'o%d' % _gbn[0]
+    df, out = DS.create_dataframe(gname), DS.create_dataframe(oname)
+    try:
+        names = []
+        for i, c in enumerate(case['cols']):
+            k, name = _FIELD_KIND.get(c['k'], c['k']), 'k%d' % i
+            names.append(name)
+            if k == 'fixed':
+                f = df.create_fixed_string(name, c['w'])
+            elif k == 'cat':
+                f = df.create_categorical(name, 'int8', {'a': 0, 'b': 1, 'c': 2, 'd': 3})
+            elif k == 'ts':
+                f = df.create_timestamp(name)
+            else:
+                f = df.create_numeric(name, k)
+            f.data.write(_array(c))
+        by = names[0] if len(names) == 1 and case.get('by_str') else names
+        df.groupby(by=by, hint_keys_is_sorted=bool(case.get('hint', True))).count(ddf=out)
+        counts = _ints(out['count'].data[:])
+        spans = [0]
+        for x in counts:
+            spans.append(spans[-1] + x)
+        return spans
+    finally:
+        for n in (gname, oname):
+            try:
+                del DS[n]
+            except Exception:
+                pass
 
 
 def _run_apply_rle(case):
@@ -401,7 +520,18 @@ def _wcol(col):
         if not rows and not col.get('idx0'):
             return [2, [], []]
         return [2, _offsets(rows), [b for r in rows for b in r]]
+    if k in FBITS:
+        return [3, FBITS[k], list(col['rows'])]
+    if k == 'bool':
+        return [0, [1 if v else 0 for v in col['rows']]]
     return [0, list(col['rows'])]
+
+
+def _wcol_w(col, w):
+    """a fixed column as it is after np.asarray re-padded it to the common width w (Gallina pad_fixed)."""
+    if col['k'] == 'fixed':
+        return [4, w, [list(r) for r in col['rows']]]
+    return _wcol(col)
 
 
 def _wrle(rc):
@@ -436,6 +566,12 @@ def to_val(case):
         if case['k'] == 'fixed':
             return [n, 1, [[_pad(r, case['w']) for r in c] for c in case['cols']]]
         return [n, 0, case['cols']]
+    if op in ('multir', 'sortedr'):
+        w = max([c.get('w') or 0 for c in case['cols']])
+        return [8, 0 if op == 'multir' else 1, [_wcol_w(c, w) for c in case['cols']]]
+    if op == 'gb':
+        mixed = len({_col_dtype(c) for c in case['cols']}) > 1
+        return [7, 1 if mixed else 0, [_wcol_w(c, c.get('w') or 0) for c in case['cols']]]
     if op == 'bs':
         return [6, case['s0'], case['s1']]
     if op == 'ap':
@@ -468,9 +604,9 @@ def _shape(case, v):
         return {'f': [v, 'int32'], 'sf': [v, 'int32'], 'kw': [v, 'int32'], 'sa': [v, 'int32'], 'op': [v, 'int32']}
     if op == 'gs2f':
         return v
-    if op in ('gs2a', 'multi'):
+    if op in ('gs2a', 'multi', 'multir'):
         return [v, 'int32']
-    if op in ('sorted', 'bs', 'apf'):
+    if op in ('sorted', 'sortedr', 'bs', 'apf', 'gb'):
         return v
     if op in ('ap', 'apr'):
         fn, k = case['fn'], case['col']['k']
@@ -491,7 +627,7 @@ def _shape(case, v):
 
 def _dtype_name(k):
     return {'int32': 'int32', 'int64': 'int64', 'float64': 'float64', 'float32': 'float32', 'bool': 'bool',
-            'int8': 'int8', 'cat': 'int8', 'ts': 'float64'}[k]
+            'int8': 'int8', 'cat': 'int8', 'ts': 'float64', 'f64b': 'float64', 'f32b': 'float32', 'tsb': 'float64'}[k]
 
 
 def from_val(case, v):
@@ -545,7 +681,8 @@ def features(case, model):
         f.append(tag + 'kind:' + k)
         if len(rows) == 0: f.append(tag + 'rows=0')
         if len(rows) == 1: f.append(tag + 'rows=1')
-        rr = _runs([tuple(r) if isinstance(r, list) else r for r in rows])
+        rr = _runs(_vrows(col))
+        f.extend(x for x in _repr_features([col], tag) if not (tag and 'inside-a-run' in x))
         if rows and len(rr) == 1 and len(rows) > 1: f.append(tag + 'one-span-covers-all')
         if rows and len(rr) == len(rows) and len(rows) > 1: f.append(tag + 'all-single-row-spans')
         if rr and 1 < len(rr) < len(rows): f.append(tag + 'mixed-spans')
@@ -568,8 +705,10 @@ def features(case, model):
         n0, n1 = len(case['c0']['rows']), len(case['c1']['rows'])
         if n0 != n1: f.append('malformed:unequal-lengths')
         else:
-            b0 = {i for i in range(1, n0) if case['c0']['rows'][i] != case['c0']['rows'][i - 1]}
-            b1 = {i for i in range(1, n1) if case['c1']['rows'][i] != case['c1']['rows'][i - 1]}
+            v0, v1 = _vrows(case['c0']), _vrows(case['c1'])
+            b0 = {i for i in range(1, n0) if v0[i] != v0[i - 1]}
+            b1 = {i for i in range(1, n1) if v1[i] != v1[i - 1]}
+            f.extend(x for x in _repr_features([case['c0'], case['c1']]) if x.startswith('repr:signed-zero-pair-inside'))
             if b0 & b1: f.append('shared-boundary')
             if b0 - b1 and b1 - b0: f.append('interleaved-boundaries')
             if b0 and not b1 or b1 and not b0: f.append('one-side-constant')
@@ -585,6 +724,21 @@ def features(case, model):
         if op == 'multi' and len(case['cols']) >= 2 and n >= 2:
             if any(case['cols'][0][i] == case['cols'][0][i - 1] and case['cols'][-1][i] != case['cols'][-1][i - 1] for i in range(1, n)):
                 f.append('boundary-only-in-last-column')
+    elif op in ('multir', 'sortedr', 'gb'):
+        cols = case['cols']
+        f.append('ncols=%d' % len(cols))
+        f.append('kinds:' + '+'.join(c['k'] + (str(c['w']) if c['k'] == 'fixed' else '') for c in cols))
+        n = len(cols[0]['rows']) if cols else -1
+        if n == 0: f.append('rows=0')
+        if n == 1: f.append('rows=1')
+        if len({len(c['rows']) for c in cols}) > 1: f.append('malformed:unequal-lengths')
+        if len({_col_dtype(c) for c in cols}) > 1:
+            f.append('repr:key-columns-of-different-dtypes' + (':ranked-by-groupby' if op == 'gb' else ':stacked-by-asarray'))
+        if op == 'gb':
+            f.append('hint_keys_is_sorted=%s' % bool(case.get('hint', True)))
+            if case.get('by_str'): f.append('by-is-a-str')
+        if op == 'sortedr' and model in (0, 1): f.append('sorted=%d' % model)
+        f.extend(_repr_features(cols))
     elif op == 'bs':
         s0, s1 = case['s0'], case['s1']
         if s0 and s1 and s0[-1] == s1[-1] and s0[0] == 0 and s1[0] == 0: f.append('valid-span-pair')
@@ -602,7 +756,12 @@ def features(case, model):
             if len(sp) == n + 1 and n > 1: f.append('all-single-row-spans')
             if any(b - a >= 3 for a, b in zip(sp, sp[1:])): f.append('span>=3-rows')
             if sp[-1] != n or sp[0] != 0: f.append('spans-cover-part-of-column')
-            rows = case['col']['rows']
+            rows = _vrows(case['col']) if case['col']['k'] in FBITS else case['col']['rows']
+            if case['col']['k'] in FBITS:
+                raw = case['col']['rows']
+                for a, b in zip(sp, sp[1:]):
+                    if len({raw[i] for i in range(a, b) if rows[i] == min(rows[a:b])}) > 1:
+                        f.append('repr:tie-for-min-between-signed-zeros'); break
             for a, b in zip(sp, sp[1:]):
                 seg = [tuple(r) if isinstance(r, list) else r for r in rows[a:b]]
                 if len(seg) >= 2 and seg.count(min(seg)) >= 2: f.append('tie-for-min'); break
@@ -628,6 +787,40 @@ def features(case, model):
         if len(case['dest']) != len(sp) - 1: f.append('malformed:dest-length')
         if any(a > b for a, b in zip(sp, sp[1:])): f.append('malformed:spans')
     return f
+
+
+def _repr_features(cols, tag=''):
+    """where value equality and representation equality part: adjacent rows that are EQUAL but stored differently."""
+    f = []
+    if any(len(c['rows']) != len(cols[0]['rows']) for c in cols):
+        return f
+    vs = [_vrows(c) for c in cols]
+    n = len(cols[0]['rows'])
+    for ci, c in enumerate(cols):
+        k, rows = c['k'], c['rows']
+        if k in FBITS:
+            f.append(tag + 'repr:float-column-given-by-bit-patterns')
+            w = FBITS[k]
+            if any(b & ((1 << (w - 1)) - 1) >= ((1 << (w - 1)) - (1 << (52 if w == 64 else 23))) for b in rows):
+                f.append(tag + 'repr:infinity')
+            for i in range(1, n):
+                if rows[i] != rows[i - 1] and vs[ci][i] == vs[ci][i - 1]:
+                    f.append(tag + 'repr:adjacent-signed-zeros(equal-value,different-bits)')
+                    if all(v[i] == v[i - 1] for v in vs):
+                        f.append(tag + 'repr:signed-zero-pair-inside-a-run-of-equal-rows')
+                    break
+            for i in range(1, n):
+                if vs[ci][i] != vs[ci][i - 1] and abs(vs[ci][i]) <= 1 and abs(vs[ci][i - 1]) <= 1:
+                    f.append(tag + 'repr:zero-next-to-smallest-subnormal'); break
+        elif k == 'fixed':
+            for i in range(1, n):
+                if list(rows[i]) != list(rows[i - 1]) and vs[ci][i] == vs[ci][i - 1]:
+                    f.append(tag + 'repr:adjacent-differ-only-in-trailing-NULs(same-stored-element)'); break
+        elif k == 'indexed':
+            for i in range(1, n):
+                if list(rows[i]) != list(rows[i - 1]) and _strip(rows[i]) == _strip(rows[i - 1]):
+                    f.append(tag + 'repr:indexed-rows-differ-only-in-trailing-NULs(different-rows)'); break
+    return sorted(set(f))
 
 
 def _rle_bounds(rc):
@@ -754,6 +947,18 @@ def _warm_cases():
         rows = [[97], [98]] if k == 'fixed' else [0, 1]
         yield {'op': 'multi', 'k': k, 'w': 3, 'cols': [rows, rows]}
         yield {'op': 'sorted', 'k': k, 'w': 3, 'cols': [rows, rows]}
+    for kinds in REPR_MULTI_SETS:
+        cs = [_col(k, _two_alpha(k)) for k in kinds]
+        yield {'op': 'multir', 'cols': cs}
+        yield {'op': 'sortedr', 'cols': cs}
+    for ws in REPR_FIXED_SETS:
+        cs = [_col('fixed', _two_alpha('fixed', w), w=w) for w in ws]
+        yield {'op': 'multir', 'cols': cs}
+        yield {'op': 'sortedr', 'cols': cs}
+    for (k0, k1) in [('f64b', 'f64b'), ('f64b', 'int32'), ('int32', 'f32b'), ('f64b', 'fixed'), ('tsb', 'f32b'), ('fixed', 'f32b'),
+                     ('bool', 'int8'), ('int8', 'int64'), ('f32b', 'int32')]:
+        yield {'op': 'gs2a', 'c0': _col(k0, _two_alpha(k0)), 'c1': _col(k1, _two_alpha(k1))}
+    yield {'op': 'gb', 'cols': [_col('f64b', _fb_two(64)), _col('int32', [0, 1])]}
     for sdt in ('int32', 'int64'):
         yield {'op': 'bs', 'sdt': sdt, 's0': [0, 2], 's1': [0, 1, 2]}
         for fn in KID:
@@ -1002,6 +1207,11 @@ RLE_STRIDE = 48      # one large case after this many small ones: spreads them o
 
 def gen(tier, rng):
     import random, os
+    if os.environ.get('VERIF_C08_ONLY', '') == 'repr':     # development switch: the representation-vs-value part alone
+        cnt = itertools.count(1)
+        for c in _gen_repr(tier, random.Random(rng.getrandbits(64)), lambda: next(cnt)):
+            yield c
+        return
     if os.environ.get('VERIF_C08_LARGE', '1') == '0':      # development switch (timing of the small-scope part alone)
         for c in _gen_small(tier, rng):
             yield c
@@ -1166,6 +1376,13 @@ def _gen_small(tier, rng):
     yield {'op': 'apf', 'fn': 'min', 'sdt': 'int32', 'spans': [0, 1, 2], 'col': _col('int32', [1, 0]), 'dest': [7], 'flt': [0, 0]}
     yield {'op': 'apf', 'fn': 'first', 'sdt': 'int32', 'spans': [0, 1, 2], 'col': _col('int32', [1, 0]), 'dest': [7, 7], 'flt': [0]}
 
+    # ---- R. keys given by their stored representation (value equality is not representation equality)
+    import random as _random, os as _os
+    rrng = _random.Random(rng.getrandbits(64))
+    if _os.environ.get('VERIF_C08_REPR', '1') != '0':       # development switch (timing without this part)
+        for c in _gen_repr(tier, rrng, tick):
+            yield c
+
     # ---- H. seeded random longer inputs with runs
     def runs_rows(pool, n):
         rows = []
@@ -1201,6 +1418,206 @@ def _gen_small(tier, rng):
                        'spans': sp, 'col': col}
 
 
+# ---- value equality versus representation equality of keys -------------------------------------------------------
+# Every entry point must compare keys by VALUE.  The stored representation is finer than the value for floats (+0.0 and
+# -0.0: equal, different bits), and the several-arrays entry points first stack the columns (np.asarray widens bool /
+# int8 / int32 / int64 / float32 to a common dtype and re-pads 'S<w1>' to 'S<w2>'; DataFrame.groupby ranks the columns
+# with np.unique when the dtypes differ).  A kernel that starts comparing bytes (np.void views, tobytes, hashing, integer
+# views) is right on every input whose values have one representation each, so the generators below put the two zeros
+# next to each other, inside runs in which every other key column is constant, through every entry point.
+REPR_MULTI_SETS = [('f64b',), ('f32b',), ('tsb',), ('f64b', 'f64b'), ('f32b', 'f32b'), ('f64b', 'int32'), ('int8', 'f32b'),
+                   ('f32b', 'f64b'), ('bool', 'int8'), ('int8', 'int64'), ('bool', 'int32', 'int8'),
+                   ('f64b', 'f64b', 'f64b'), ('int32', 'f64b', 'bool'), ('f32b', 'int8', 'f32b')]
+REPR_FIXED_SETS = [(1, 3), (3, 1), (2, 2), (2, 1, 3)]
+REPR_GB_SETS = [('f64b',), ('f32b',), ('tsb',), ('f64b', 'f64b'), ('f64b', 'int32'), ('int64', 'f64b'), ('f32b', 'fixed'),
+                ('fixed', 'f64b'), ('bool', 'int8'), ('cat', 'int8'), ('ts', 'f64b'), ('f32b', 'f64b'),
+                ('f64b', 'int32', 'f64b'), ('fixed', 'fixed')]
+
+
+def _two_alpha(k, w=None):
+    """two representations per column: for floats the two zeros (ONE value), for 'S<w>' b'a' / b'a\\0' (ONE stored
+    element when w >= 2), for integers two values."""
+    if k in FBITS:
+        return _fb_two(FBITS[k])
+    if k == 'fixed':
+        return [[97], [97, 0]] if (w or 3) >= 2 else [[97], [98]]
+    return [0, 1]
+
+
+def _three_alpha(k, w=None):
+    if k in FBITS:
+        return _fb_small(FBITS[k])
+    if k == 'fixed':
+        return [[97], [97, 0], [98]] if (w or 3) >= 2 else [[97], [98], [99]]
+    return [0, 1] if k == 'bool' else [0, 1, 2]
+
+
+def _sorted_by_value(cols):
+    vs = [_vrows(c) for c in cols]
+    rows = list(zip(*vs))
+    return all(rows[i - 1] <= rows[i] for i in range(1, len(rows)))
+
+
+def _gen_repr(tier, rng, tick):
+    big = tier == 'thorough'
+    # ---- R1. one column given by bit patterns: every column of <= 5 (6) rows over {+0.0, -0.0, 0.5}
+    for k in ('f64b', 'f32b', 'tsb'):
+        for rows in _seqs(_fb_small(FBITS[k]), 6 if big else 5):
+            yield {'op': 'gs', 'col': _col(k, rows), 'h5': tick() % 16 == 0}
+    # ---- R2. two columns (Field, Field) / (ndarray, ndarray): the zeros of one column inside runs of the other
+    pairs = [('f64b', 'f64b'), ('f64b', 'int32'), ('int32', 'f32b'), ('f64b', 'fixed'), ('tsb', 'f32b'), ('fixed', 'f32b'),
+             ('bool', 'int8'), ('int8', 'int64')]
+    n2 = 5 if big else 4
+    for (k0, k1) in pairs:
+        for n in range(n2 + 1):
+            for r0 in itertools.product(_two_alpha(k0), repeat=n):
+                for r1 in itertools.product(_two_alpha(k1), repeat=n):
+                    c0, c1 = _col(k0, r0), _col(k1, r1)
+                    yield {'op': 'gs2a', 'c0': c0, 'c1': c1}
+                    if tick() % 2 == 0 or big:
+                        yield {'op': 'gs2f', 'c0': c0, 'c1': c1, 'h5': tick() % 64 == 0}
+    for (k0, k1) in [('f64b', 'f64b'), ('f32b', 'int32'), ('indexed', 'f64b')]:
+        al0 = INDEXED_POOL_Q[:3] if k0 == 'indexed' else _three_alpha(k0)
+        for n in range(0, 4):
+            for r0 in itertools.product(al0, repeat=n):
+                for r1 in itertools.product(_three_alpha(k1), repeat=n):
+                    c0, c1 = _col(k0, r0), _col(k1, r1)
+                    yield {'op': 'gs2f', 'c0': c0, 'c1': c1}
+                    if k0 != 'indexed':
+                        yield {'op': 'gs2a', 'c0': c0, 'c1': c1}
+    # ---- R3. several arrays stacked by np.asarray: columns of one or of several numeric dtypes (widened, value kept),
+    #          'S' columns of several widths (re-padded); _get_spans_for_multi_fields and check_if_sorted
+    def tables(sets_, alpha, nmax_by_nc):
+        for kinds in sets_:
+            nc = len(kinds)
+            for n in range(0, nmax_by_nc[nc] + 1):
+                for cols in itertools.product(*[list(itertools.product(alpha(k), repeat=n)) for k in kinds]):
+                    yield [(k, list(c)) for k, c in zip(kinds, cols)]
+    for tab in tables(REPR_MULTI_SETS, _two_alpha, {1: 5, 2: 4, 3: 4 if big else 3}):
+        cols = [_col(k, r) for k, r in tab]
+        yield {'op': 'multir', 'cols': cols}
+        if tick() % 2 == 0:
+            yield {'op': 'sortedr', 'cols': cols}
+    for tab in tables([s_ for s_ in REPR_MULTI_SETS if len(s_) <= 2], _three_alpha, {1: 4, 2: 4 if big else 3}):
+        cols = [_col(k, r) for k, r in tab]
+        yield {'op': 'multir', 'cols': cols}
+        yield {'op': 'sortedr', 'cols': cols}
+    for ws in REPR_FIXED_SETS:
+        nc = len(ws)
+        for alpha, nmax in ((_two_alpha, 4 if nc <= 2 else 3), (_three_alpha, (4 if big else 3) if nc <= 2 else 0)):
+            for n in range(1 if alpha is _three_alpha else 0, nmax + 1):
+                for cols in itertools.product(*[list(itertools.product(alpha('fixed', w), repeat=n)) for w in ws]):
+                    cs = [_col('fixed', list(r), w=w) for w, r in zip(ws, cols)]
+                    yield {'op': 'multir', 'cols': cs}
+                    if tick() % 2 == 0:
+                        yield {'op': 'sortedr', 'cols': cs}
+    # ---- R4. DataFrame.groupby(by=[...]).count() (HDF5-backed; ~15 ms a case): key columns of one dtype are stacked as
+    #          they are, of different dtypes are ranked first
+    for kinds in REPR_GB_SETS:
+        nc = len(kinds)
+        for n in range(0, {1: 4, 2: 3 if big else 2, 3: 2}[nc] + 1):
+            for cols in itertools.product(*[list(itertools.product(_two_alpha(k, 3), repeat=n)) for k in kinds]):
+                cs = [_col(k, list(r)) for k, r in zip(kinds, cols)]
+                t = tick()
+                yield {'op': 'gb', 'cols': cs, 'hint': not (t % 3 == 0 and _sorted_by_value(cs)), 'by_str': nc == 1 and t % 2 == 0}
+    yield {'op': 'gb', 'cols': [_col('fixed', [[97], [97, 0], [97]], w=1 + 1), _col('fixed', [[98], [98], [98, 0]], w=3)]}
+    # ---- R5. reductions on float columns given by bit patterns: ties between the two zeros (first one wins by VALUE)
+    fns = ['min', 'max', 'index_of_min', 'index_of_max', 'first', 'last']
+    for n in range(0, (5 if big else 4) + 1):
+        for sp in _compositions(n):
+            for k in ('f64b', 'f32b'):
+                for rows in itertools.product(_fb_small(FBITS[k]), repeat=n):
+                    t = tick()
+                    fsel = [fns[t % 6], fns[(t + 3) % 6]] + ([fns[(t + 1) % 6]] if big else [])
+                    for fn in fsel:
+                        level = ['kernel', 'session', 'field'][(t + len(fn)) % 3]
+                        if level == 'field' and fn.startswith('index_of'):
+                            level = 'kernel'
+                        case = {'op': 'ap', 'fn': fn, 'level': level, 'sdt': 'int32' if (t // 3) % 2 else 'int64',
+                                'spans': sp, 'col': _col(k, rows)}
+                        if level == 'session' and t % 3 == 0: case['tf'] = True
+                        if level == 'field' and t % 5 == 0: case['inplace'] = True
+                        if level == 'field' and t % 32 == 0: case['h5'] = True
+                        yield case
+    for n in range(0, 4):
+        weak = [list(t) for ln in range(1, 5) for t in itertools.combinations_with_replacement(range(0, n + 1), ln)]
+        for sp in weak:
+            for rows in itertools.product(_fb_small(64), repeat=n):
+                t = tick()
+                if t % 3 and not big:
+                    continue
+                yield {'op': 'apf', 'fn': ['min', 'max', 'first', 'last'][t % 4], 'sdt': 'int32' if t % 2 else 'int64', 'spans': sp,
+                       'col': _col('f64b', rows), 'dest': [7] * (len(sp) - 1), 'flt': [(i + t) % 2 for i in range(len(sp) - 1)]}
+    # ---- R7. the opposite direction: indexed strings are compared byte-exactly, 'a' and 'a\\0' are DIFFERENT rows (a kernel
+    #          that moves them into an 'S' array would merge them); [] and [0] likewise
+    nul_pool = [[97], [97, 0], [], [0]]
+    for rows in _seqs(nul_pool, 5 if big else 4):
+        yield {'op': 'gs', 'col': _col('indexed', rows), 'h5': tick() % 16 == 0}
+    for n in range(0, 4):
+        for r0 in itertools.product(nul_pool[:3], repeat=n):
+            yield {'op': 'gs2f', 'c0': _col('indexed', r0), 'c1': _col('f64b', [fbits(64, 0.0), fbits(64, -0.0), fbits(64, 0.0)][:n])}
+            for sp in _compositions(n):
+                for fn in ('index_of_min', 'index_of_max'):
+                    yield {'op': 'ap', 'fn': fn, 'level': 'kernel' if tick() % 2 else 'field', 'sdt': 'int32', 'spans': sp,
+                           'col': _col('indexed', r0)}
+    # ---- R6. structured random: runs over the whole pool (infinities, extremes, subnormals next to the zeros), a sign
+    #          flip of a zero planted inside a run, through every entry point incl. several arrays and group-by
+    def frows(k, n):
+        pool = _fb_pool(FBITS[k])
+        rows = []
+        while len(rows) < n:
+            v = rng.choice(pool + _fb_two(FBITS[k]) * 2)
+            ln = rng.choice([1, 1, 2, 3, 5])
+            if v in _fb_two(FBITS[k]):
+                rows.extend(rng.choice(_fb_two(FBITS[k])) for _ in range(ln))     # one run of zeros, signs mixed
+            else:
+                rows.extend([v] * ln)
+        return rows[:n]
+
+    def anyrows(k, n, w=3):
+        if k in FBITS:
+            return frows(k, n)
+        pool = [[97], [97, 0], [98], [], [97, 32]] if k == 'fixed' and w >= 2 else [[97], [98], []] if k == 'fixed' else [0, 1] if k == 'bool' else [0, 1, 2]
+        rows = []
+        while len(rows) < n:
+            rows.extend([rng.choice(pool)] * rng.choice([1, 2, 3, 5, 8]))
+        return rows[:n]
+    for _ in range(1500 if big else 250):
+        n = rng.randint(2, 40)
+        k = rng.choice(['f64b', 'f32b', 'tsb'])
+        col = _col(k, frows(k, n))
+        yield {'op': 'gs', 'col': col, 'h5': rng.random() < 0.05}
+        k1 = rng.choice(['int32', 'fixed', 'f64b', 'f32b', 'indexed'])
+        c1 = _col(k1, runs_pool(rng, INDEXED_POOL, n) if k1 == 'indexed' else anyrows(k1, n))
+        yield {'op': 'gs2f', 'c0': col, 'c1': c1}
+        if k1 != 'indexed':
+            yield {'op': 'gs2a', 'c0': c1, 'c1': col}
+        kinds = rng.choice(REPR_MULTI_SETS)
+        cs = [_col(kk, anyrows(kk, n)) for kk in kinds]
+        yield {'op': 'multir', 'cols': cs}
+        yield {'op': 'sortedr', 'cols': cs}
+        ws = rng.choice(REPR_FIXED_SETS)
+        cs = [_col('fixed', anyrows('fixed', n, w), w=w) for w in ws]
+        yield {'op': 'multir', 'cols': cs}
+        if rng.random() < (1.0 if big else 0.4):
+            kinds = rng.choice(REPR_GB_SETS)
+            m = rng.randint(2, 16)
+            cs = [_col(kk, anyrows(kk, m)) for kk in kinds]
+            yield {'op': 'gb', 'cols': cs, 'hint': not (rng.random() < 0.3 and _sorted_by_value(cs))}
+        keys = anyrows('int32', n)
+        sp = [0] + [i for i in range(1, n) if keys[i] != keys[i - 1]] + [n]
+        for fn in rng.sample(list(KID), 3):
+            levels = ['kernel', 'session'] + (['field'] if fn in ('min', 'max', 'first', 'last') else [])
+            yield {'op': 'ap', 'fn': fn, 'level': rng.choice(levels), 'sdt': rng.choice(['int32', 'int64']), 'spans': sp, 'col': col}
+
+
+def runs_pool(rng, pool, n):
+    rows = []
+    while len(rows) < n:
+        rows.extend([rng.choice(pool)] * rng.choice([1, 1, 2, 3, 5]))
+    return rows[:n]
+
+
 def shrink(case):
     def without(rows, i):
         return rows[:i] + rows[i + 1:]
@@ -1230,6 +1647,14 @@ def shrink(case):
         n = min(len(c) for c in case['cols']) if case['cols'] else 0
         for i in range(n):
             yield dict(case, cols=[without(c, i) for c in case['cols']])
+    elif op in ('multir', 'sortedr', 'gb'):
+        cols = case['cols']
+        n = min(len(c['rows']) for c in cols) if cols else 0
+        for i in range(n):
+            yield dict(case, cols=[dict(c, rows=without(c['rows'], i)) for c in cols])
+        if len(cols) > 1:
+            for j in range(len(cols)):
+                yield dict(case, cols=cols[:j] + cols[j + 1:])
     elif op == 'ap':
         sp, rows = case['spans'], case['col']['rows']
         for i in range(len(rows)):
